@@ -153,77 +153,16 @@ func ruleFmt(c *Ctx) {
 	})
 	c.check(starOK, "star", pf.Pos(), "each `*` appends an integer argument tag inside the flag-scanning loop", "a `*` (dynamic width/precision) does not append one integer tag per occurrence inside the flag loop: `%*.*d` then consumes too few arguments and the too-few-arguments error is lost")
 
-	// TAGS: sprintf's switch over the tag has a case for each tag ('d' is also appended for '*')
-	tags["d"] = true
-	handled := map[string]bool{}
-	var tagSw *ast.SwitchStmt
-	ast.Inspect(sf.Body, func(n ast.Node) bool {
-		sw, ok := n.(*ast.SwitchStmt)
-		if !ok || sw.Tag == nil {
-			return true
-		}
-		for _, cs := range sw.Body.List {
-			for _, e := range cs.(*ast.CaseClause).List {
-				if bl, ok := e.(*ast.BasicLit); ok && bl.Kind == token.CHAR {
-					handled[strings.Trim(bl.Value, "'")] = true
-					tagSw = sw
-				}
-			}
-		}
-		return true
-	})
-	var unhandled []string
-	for t := range tags {
-		if !handled[t] {
-			unhandled = append(unhandled, t)
-		}
+	// TAGS, COUNT, CHAR: sprintf evaluated per argument tag on the SSA form (rule_fmtsem.go)
+	tags["d"] = true // also appended for '*'
+	sem := fmtSprintfSem(c, tags)
+	if len(sem.problems) > 0 {
+		c.undecided("tags", sf.Pos(), "sprintf could not be evaluated per argument tag: %s", strings.Join(sem.problems, "; "))
+	} else {
+		c.check(len(sem.unhandled) == 0 && len(tags) >= 5, "tags", sf.Pos(), fmt.Sprintf("every argument tag parseFmtTypes emits (%d) is converted by sprintf: %v", len(tags), sem.calls), fmt.Sprintf("sprintf has no conversion for argument tag(s) %v emitted by parseFmtTypes: the argument would be passed as nil and print %%!d(<nil>)", sem.unhandled))
+		c.check(sem.countOK, "count", sf.Pos(), "with one conversion and no argument every path ends in an error, and the argument list is never indexed", "sprintf indexes args[i] for every conversion without first rejecting `len(types) > len(args)`: too few arguments would panic (index out of range) instead of being a run-time error")
+		c.check(sem.charOK, "char", sf.Pos(), "%c classifies its argument with isTrueStr before anything else (numeric strings are numbers)", "%c does not use isTrueStr to decide between a string and a number: a numeric input field such as \"65\" prints its first character instead of the character with that code")
 	}
-	sort.Strings(unhandled)
-	c.check(tagSw != nil && len(unhandled) == 0 && len(tags) >= 5, "tags", sf.Pos(), fmt.Sprintf("every argument tag parseFmtTypes emits (%d) is converted by sprintf", len(tags)), fmt.Sprintf("sprintf has no conversion for argument tag(s) %v emitted by parseFmtTypes: the argument would be passed as nil and print %%!d(<nil>)", unhandled))
-
-	// COUNT: if len(types) > len(args) { return error } before the range over types
-	countOK := false
-	var guardPos, loopPos token.Pos
-	for _, s := range sf.Body.List {
-		switch x := s.(type) {
-		case *ast.IfStmt:
-			cs := types.ExprString(x.Cond)
-			if strings.Contains(cs, "len(types)") && strings.Contains(cs, "len(args)") && strings.Contains(cs, ">") {
-				for _, b := range x.Body.List {
-					if r, ok := b.(*ast.ReturnStmt); ok && len(r.Results) == 2 && !isIdent(r.Results[1], "nil") {
-						guardPos = x.Pos()
-					}
-				}
-			}
-		case *ast.RangeStmt:
-			if types.ExprString(x.X) == "types" {
-				loopPos = x.Pos()
-			}
-		}
-	}
-	countOK = guardPos != token.NoPos && loopPos != token.NoPos && guardPos < loopPos
-	c.check(countOK, "count", sf.Pos(), "too few arguments is detected and reported before any argument is indexed", "sprintf indexes args[i] for every conversion without first rejecting `len(types) > len(args)`: too few arguments would panic (index out of range) instead of being a run-time error")
-
-	// CHAR: case 'c' calls isTrueStr
-	charOK := false
-	if tagSw != nil {
-		for _, cs := range tagSw.Body.List {
-			cc := cs.(*ast.CaseClause)
-			for _, e := range cc.List {
-				if bl, ok := e.(*ast.BasicLit); ok && bl.Value == "'c'" {
-					ast.Inspect(&ast.BlockStmt{List: cc.Body}, func(m ast.Node) bool {
-						if call, ok := m.(*ast.CallExpr); ok {
-							if se, ok := call.Fun.(*ast.SelectorExpr); ok && se.Sel.Name == "isTrueStr" {
-								charOK = true
-							}
-						}
-						return true
-					})
-				}
-			}
-		}
-	}
-	c.check(charOK, "char", sf.Pos(), "%c classifies its argument with isTrueStr (numeric strings are numbers)", "%c does not use isTrueStr to decide between a string and a number: a numeric input field such as \"65\" prints its first character instead of the character with that code")
 
 	// FASTPATH in value.str
 	vs := c.funcDecl("interp", "value.str")
